@@ -367,4 +367,159 @@ Proof.
     rewrite irun_cons. exact Hy.
 Qed.
 
+(* ---- the own complaint is broadcast exactly when it is registered ---- *)
+Definition cmp : event := EvBcast (MComplaint (CIdx (Z.of_nat d))).
+
+Lemma bc_recv q q' ev : build_complaint cf d q = Some (q', ev) ->
+  own_recv q = false -> (own_recv q' = true \/ q_disq q' = true) -> In cmp ev.
+Proof.
+  unfold build_complaint, own_recv, cmp. fold p. intros H H0 H1.
+  repeat brk_hyp H; inv_pairs; cbn in *; try congruence; auto;
+  try (apply in_or_app; left; right; left; reflexivity);
+  try (right; left; reflexivity).
+Qed.
+
+Ltac recvfin :=
+  cbn in *; unfold upd in *;
+  repeat match goal with
+  | H : context[Nat.eqb ?a ?b] |- _ => destruct (Nat.eqb_spec a b); cbn in H
+  | |- context[Nat.eqb ?a ?b] => destruct (Nat.eqb_spec a b); cbn
+  end; subst; try congruence; try contradiction; auto.
+
+Ltac bcr := repeat match goal with
+  | H : build_complaint _ _ ?x = Some (?q', ?l) |- _ =>
+      let K := fresh "K" in pose proof (bc_recv _ _ _ H) as K; clear H
+  end.
+
+Lemma share_recv o m q q' ev : q_receive_share cf d o m q = Some (q', ev) ->
+  own_recv q = false -> own_recv q' = true -> In cmp ev.
+Proof.
+  unfold q_receive_share. intros H H0 H1.
+  repeat brk_hyp H; inv_pairs; try congruence; bcr;
+  try (apply in_or_app; left); try (apply K; [exact H0|left; exact H1]);
+  try (unfold own_recv in *; cbn [q_compl qset_v qset_compl qset_disq] in *; congruence).
+Qed.
+
+Ltac orf := unfold own_recv in *; cbn [q_compl qset_v qset_compl qset_disq qset_st qset_ct] in *.
+
+Lemma vector_recv o vb q q' ev : q_receive_vector cf d o vb q = Some (q', ev) ->
+  own_recv q = false -> own_recv q' = true -> In cmp ev.
+Proof.
+  unfold q_receive_vector. intros H H0 H1.
+  repeat brk_hyp H; inv_pairs; try congruence; bcr;
+  try (apply in_or_app; left); try (apply K; [exact H0|left; exact H1]);
+  try (orf; congruence).
+Qed.
+
+Lemma answer_recv o ab q q' ev : q_receive_answer cf d o ab q = Some (q', ev) ->
+  own_recv q = false -> own_recv q' = true -> In cmp ev.
+Proof.
+  unfold q_receive_answer. intros H H0 H1. exfalso.
+  repeat brk_hyp H; inv_pairs; orf; unfold p, upd in *;
+  repeat match goal with
+  | H : context[Nat.eqb ?a ?b] |- _ => destruct (Nat.eqb_spec a b); cbn in H
+  end; subst; try congruence;
+  repeat match goal with e : c_my cf = _ |- _ => rewrite e in *; clear e end;
+  repeat match goal with H : q_compl _ ?c = _, H' : context[q_compl _ ?c] |- _ => rewrite H in H' end; cbn in *; try congruence.
+Qed.
+
+Lemma complaint_recv o cb q q' ev : o <> c_my cf -> q_receive_complaint cf d o cb q = Some (q', ev) ->
+  own_recv q = false -> own_recv q' = true -> In cmp ev.
+Proof.
+  unfold q_receive_complaint, build_answer. intros Ho H H0 H1. exfalso.
+  repeat brk_hyp H; inv_pairs; orf; unfold p, upd in *;
+  repeat match goal with
+  | H : context[Nat.eqb ?a ?b] |- _ => destruct (Nat.eqb_spec a b); cbn in H
+  end; subst; try congruence; try contradiction;
+  repeat match goal with e : c_my cf = _ |- _ => rewrite e in *; clear e end; try congruence; try contradiction.
+Qed.
+
+Lemma bc_cmp q q' ev : build_complaint cf d q = Some (q', ev) -> In cmp ev ->
+  q_disq q' = true \/ own_recv q' = true.
+Proof.
+  unfold build_complaint, own_recv, cmp. fold p. intros H Hin.
+  repeat brk_hyp H; inv_pairs; cbn in *; unfold upd; rewrite ?Nat.eqb_refl; cbn; auto;
+  try (repeat (apply in_app_or in Hin; cbn in Hin); repeat match goal with H : _ \/ _ |- _ => destruct H end; try contradiction; try discriminate).
+Qed.
+
+Ltac cmfin :=
+  try match goal with
+  | Hin : In _ _ |- _ => cbn in Hin; repeat (apply in_app_or in Hin; cbn in Hin)
+  end;
+  repeat match goal with H : _ \/ _ |- _ => destruct H end; try contradiction; try discriminate.
+
+Ltac bcc := try match goal with
+  | H : build_complaint _ _ _ = Some (?q', ?l), Hin : In cmp (?l ++ _) |- _ =>
+      apply in_app_or in Hin; destruct Hin as [Hin|Hin]; [exact (bc_cmp _ _ _ H Hin)|cbn in Hin]
+  | H : build_complaint _ _ _ = Some (?q', ?l), Hin : In cmp ?l |- _ => exact (bc_cmp _ _ _ H Hin)
+  end.
+
+Lemma share_cmp o m q q' ev : q_receive_share cf d o m q = Some (q', ev) -> In cmp ev -> q_disq q' = true \/ own_recv q' = true.
+Proof. unfold q_receive_share. intros H Hin. repeat brk_hyp H; inv_pairs; bcc; unfold cmp in *; cmfin. Qed.
+Lemma vector_cmp o vb q q' ev : q_receive_vector cf d o vb q = Some (q', ev) -> In cmp ev -> q_disq q' = true \/ own_recv q' = true.
+Proof. unfold q_receive_vector. intros H Hin. repeat brk_hyp H; inv_pairs; bcc; unfold cmp in *; cmfin. Qed.
+Lemma complaint_cmp o cb q q' ev : q_receive_complaint cf d o cb q = Some (q', ev) -> In cmp ev -> False.
+Proof. unfold q_receive_complaint, build_answer. intros H Hin. repeat brk_hyp H; inv_pairs; unfold cmp in *; cmfin. Qed.
+Lemma answer_cmp o ab q q' ev : q_receive_answer cf d o ab q = Some (q', ev) -> In cmp ev -> False.
+Proof. unfold q_receive_answer. intros H Hin. repeat brk_hyp H; inv_pairs; unfold cmp in *; cmfin. Qed.
+
+Theorem istep_cmp_cause q x :
+  In cmp (snd (istep cf d q x)) -> q_disq (fst (istep cf d q x)) = true \/ own_recv (fst (istep cf d q x)) = true.
+Proof.
+  unfold istep. destruct x as [o m|o m| |j]; cbn [call_of qual_step qs_run qs_q].
+  - unfold q_broadcast. cbn [negb]. rewrite Nat2Z.id.
+    destruct (in_range cf (Z.of_nat o)); cbn; [|contradiction].
+    destruct (Nat.eqb (c_my cf) o); cbn; [contradiction|].
+    destruct (q_disq q) eqn:Hq; cbn; [contradiction|].
+    destruct m as [|sb|vb|cb|ab|tg]; cbn; try (intros [E|[]]; discriminate E).
+    + destruct (q_receive_vector cf d o vb q) as [[q' ev]|] eqn:E; cbn; [eapply vector_cmp; eauto|contradiction].
+    + destruct (q_receive_complaint cf d o cb q) as [[q' ev]|] eqn:E; cbn; [intro Hin; exfalso; eapply complaint_cmp; eauto|contradiction].
+    + destruct (q_receive_answer cf d o ab q) as [[q' ev]|] eqn:E; cbn; [intro Hin; exfalso; eapply answer_cmp; eauto|contradiction].
+  - unfold q_private. cbn [negb]. rewrite Nat2Z.id.
+    destruct (in_range cf (Z.of_nat o)); cbn; [|contradiction].
+    destruct (Nat.eqb (c_my cf) o); cbn; [contradiction|].
+    destruct (q_disq q); cbn; [contradiction|].
+    destruct (q_receive_share cf d o m q) as [[q' ev]|] eqn:E; cbn; [eapply share_cmp; eauto|contradiction].
+  - unfold q_next_timeout. cbn [negb]. destruct (q_ct q); cbn; [contradiction|].
+    destruct (q_disq q); cbn; [destruct (negb (q_st q)); cbn; contradiction|].
+    destruct (negb (q_st q)); cbn.
+    + unfold set_shares_timeout. cbn [qset_st q_v]. destruct (v_vArecv (q_v q)); cbn; [|intros [E|[]]; discriminate E].
+      destruct (v_xrecv (q_v q)); cbn; [contradiction|].
+      destruct (build_complaint cf d (qset_st q true)) as [[q' ev]|] eqn:E; cbn; [eapply bc_cmp; eauto|contradiction].
+    + unfold set_complaints_timeout. destruct (c_t cf <? ncompl cf (q_compl (qset_ct q true)))%nat; cbn;
+        [intros [E|[]]; discriminate E|contradiction].
+  - unfold q_force. cbn [negb]. destruct (in_range cf (Z.of_nat j)); cbn; [|contradiction].
+    destruct (Nat.eqb (Z.to_nat (Z.of_nat j)) d); cbn; contradiction.
+Qed.
+
+Theorem istep_recv q x :
+  own_recv q = false -> own_recv (fst (istep cf d q x)) = true -> In cmp (snd (istep cf d q x)).
+Proof.
+  unfold istep. destruct x as [o m|o m| |j]; cbn [call_of qual_step qs_run qs_q].
+  - unfold q_broadcast. cbn [negb]. rewrite Nat2Z.id.
+    destruct (in_range cf (Z.of_nat o)); cbn; [|congruence].
+    destruct (Nat.eqb_spec (c_my cf) o) as [Ho|Ho]; cbn; [congruence|].
+    destruct (q_disq q) eqn:Hq; cbn; [congruence|].
+    destruct m as [|sb|vb|cb|ab|tg]; cbn;
+      try (destruct (Nat.eqb o d); cbn; unfold own_recv; cbn; intros; congruence).
+    + destruct (q_receive_vector cf d o vb q) as [[q' ev]|] eqn:E; cbn; [eapply vector_recv; eauto|congruence].
+    + destruct (q_receive_complaint cf d o cb q) as [[q' ev]|] eqn:E; cbn; [eapply complaint_recv; eauto|congruence].
+    + destruct (q_receive_answer cf d o ab q) as [[q' ev]|] eqn:E; cbn; [eapply answer_recv; eauto|congruence].
+  - unfold q_private. cbn [negb]. rewrite Nat2Z.id.
+    destruct (in_range cf (Z.of_nat o)); cbn; [|congruence].
+    destruct (Nat.eqb (c_my cf) o); cbn; [congruence|].
+    destruct (q_disq q); cbn; [congruence|].
+    destruct (q_receive_share cf d o m q) as [[q' ev]|] eqn:E; cbn; [eapply share_recv; eauto|congruence].
+  - unfold q_next_timeout. cbn [negb]. destruct (q_ct q); cbn; [congruence|].
+    destruct (q_disq q); cbn; [destruct (negb (q_st q)); cbn; unfold own_recv; cbn; congruence|].
+    destruct (negb (q_st q)); cbn.
+    + unfold set_shares_timeout. cbn [qset_st q_v]. destruct (v_vArecv (q_v q)); cbn; [|unfold own_recv; cbn; congruence].
+      destruct (v_xrecv (q_v q)); cbn; [unfold own_recv; cbn; congruence|].
+      destruct (build_complaint cf d (qset_st q true)) as [[q' ev]|] eqn:E; cbn; [|congruence].
+      intros H0 H1. apply (bc_recv _ _ _ E); [exact H0|left; exact H1].
+    + unfold set_complaints_timeout. destruct (c_t cf <? ncompl cf (q_compl (qset_ct q true)))%nat; cbn; unfold own_recv; cbn; congruence.
+  - unfold q_force. cbn [negb]. destruct (in_range cf (Z.of_nat j)); cbn; [|congruence].
+    destruct (Nat.eqb (Z.to_nat (Z.of_nat j)) d); cbn; unfold own_recv; cbn; congruence.
+Qed.
+
 End Flag.
